@@ -15,7 +15,7 @@ for j in mutants/*.json; do
   out=$(VERIF_EVIDENCE_DIR="$W/ev" VERIF_OUT_DIR="$W/out" ../bin/govc check "$prop" -repo "$W/r" 2>&1); rc=$?
   git -C /repo worktree remove --force "$W/r" >/dev/null 2>&1; rm -rf "$W"
   if [ $rc -eq 1 ] && echo "$out" | grep -q "^VIOLATION property=$prop"; then
-    PASS=$((PASS+1)); echo "killed   $n ($prop): $(echo "$out" | grep -c '^VIOLATION') violation line(s)"
+    PASS=$((PASS+1)); echo "killed   $n ($prop): $(echo "$out" | grep -c '^VIOLATION') violation line(s), $(echo "$out" | grep '^VIOLATION' | grep -vc 'no-failing-input-found') replayed on the real code"
   else
     FAIL=$((FAIL+1)); FAILED="$FAILED $n"; echo "SURVIVED $n ($prop) rc=$rc"; echo "$out" | tail -3
   fi
